@@ -87,6 +87,10 @@ def _locate_slice_strict(values, start, stop, step, issorted=False):
     # include last element
     if stop is not None:
         istop += -1+2*(step is None or step>0)
+        if istop < 0:
+            # negative step down to the first element: open end
+            # (a plain -1 would wrap around to the last element)
+            istop = None
     return istart, istop
 
 def locate_slice(values, start, stop, step, issorted=False):
